@@ -198,3 +198,109 @@ def run_catalog_script(script):
             out, res = type(ex).__name__, {"k": "none"}
         steps.append({"op": o, "out": out, "res": res})
     return {"steps": steps}
+
+
+# ------------------------------------------------------------------------------------------------ delegations (C12)
+def _details(atype_name, det, variant):
+    from fim.slivers.capacities_labels import Labels
+    table = {
+        ("CAPACITY", "d1"): [dict(core=1, ram=2), dict(unit=3), dict(cpu=1, core=32, ram=384, disk=3000)],
+        ("CAPACITY", "d2"): [dict(bw=100), dict(core=2, disk=7), dict(burst_size=5, mtu=9000)],
+        ("LABEL", "d1"): [dict(vlan_range="1-100"), dict(ipv4="10.0.0.1", mac=["00:11:22:33:44:55", "00:11:22:33:44:56"]),
+                          dict(local_name="p1", bdf="0000:41:00.0")],
+        ("LABEL", "d2"): [dict(ipv4_range="192.168.1.1-192.168.1.10"), dict(vlan="100"), dict(asn="65000", ipv6_subnet="2001:db8::/48")],
+    }
+    kw = table[(atype_name, det)][variant % 3]
+    return Capacities(**kw) if atype_name == "CAPACITY" else Labels(**kw)
+
+
+def _det_name(atype_name, d, variant):
+    if d is None:
+        return ""
+    dd = d if isinstance(d, dict) else d.to_dict()
+    for name in ("d1", "d2"):
+        if _details(atype_name, name, variant).to_dict() == dd:
+            return name
+    return "?" + json.dumps(dd, sort_keys=True)
+
+
+def run_delegation_script(script, variant=0):
+    from fim.slivers.delegations import Delegation, Delegations, DelegationType, DelegationFormat, Pools, Pool
+    FMT = {"single": DelegationFormat.SinglePool, "definition": DelegationFormat.PoolDefinition, "reference": DelegationFormat.PoolReference}
+    RFMT = {v: k for k, v in FMT.items()}
+    steps = []
+    for o in script:
+        op = o["op"]
+        tn = o["type"]
+        at = DelegationType[tn]
+        other = "LABEL" if tn == "CAPACITY" else "CAPACITY"
+        out, res = "ok", {"k": "none"}
+        try:
+            if op == "DelegRoundTrip":
+                ds = Delegations(atype=at)
+                for did, e in (o["ds"] or {}).items():
+                    d = Delegation(atype=at, delegation_id=did, aformat=FMT[e["fmt"]], pool_id=e["pool"] or None)
+                    if e["det"]:
+                        d.set_details(_details(tn, e["det"], variant))
+                    ds.add_delegations(d)
+                text = ds.to_json()
+                raw = json.loads(text) if text else {}
+                wire = {}
+                for did, w in raw.items():
+                    if "pool" in w:
+                        wire[did] = {"pool": w["pool"]}
+                    else:
+                        wire[did] = {"pool_id": w.get("pool_id"), "det": _det_name(tn, w.get("capacities" if tn == "CAPACITY" else "labels"), variant)}
+                back = Delegations.from_json(json_str=text, atype=at)
+                decoded = {}
+                for did, d in (back.delegations.items() if back is not None else []):
+                    decoded[did] = {"fmt": RFMT[d.get_format()], "pool": d.get_pool_name() or "", "det": _det_name(tn, d.get_details(), variant)}
+                text2 = back.to_json() if back is not None else ""
+                res = {"k": "roundtrip", "wire": wire, "decoded": decoded,
+                       "same_text": (json.loads(text2) if text2 else {}) == raw and (text2 == text or back is None),
+                       "empty": len(decoded) == 0}
+            elif op == "AddDuplicateId":
+                ds = Delegations(atype=at)
+                d1 = Delegation(atype=at, delegation_id="del1")
+                d1.set_details(_details(tn, "d1", variant))
+                d2 = Delegation(atype=at, delegation_id="del1", aformat=DelegationFormat.PoolReference, pool_id="pA")
+                ds.add_delegations(d1)
+                ds.add_delegations(d2)
+            elif op == "DetailsOnReference":
+                d = Delegation(atype=at, delegation_id="del1", aformat=DelegationFormat.PoolReference, pool_id="pA")
+                d.set_details(_details(tn, "d1", variant))
+            elif op == "MixedType":
+                d = Delegation(atype=at, delegation_id="del1")
+                d.set_details(_details(other, "d1", variant))
+            elif op == "DecodeMixedText":
+                ds = Delegations(atype=at)
+                d = Delegation(atype=at, delegation_id="del1")
+                d.set_details(_details(tn, "d1", variant))
+                ds.add_delegations(d)
+                try:
+                    Delegations.from_json(json_str=ds.to_json(), atype=DelegationType[other])
+                except Exception:  # noqa: "always rejected" - the class of the rejection is not part of the statement
+                    out = "rejected"
+            elif op == "PoolsRoundTrip":
+                pools = Pools(atype=at)
+                for pid, p in o["fam"].items():
+                    pl = Pool(atype=at, pool_id=pid, delegation_id=p["del"], defined_on=p["on"], defined_for=list(p["for"]))
+                    pl.set_pool_details(_details(tn, p["det"], variant))
+                    pools.add_pool(pool=pl)
+                pools.build_index_by_delegation_id()
+                nd = pools.generate_delegations_by_node_id()
+                nodes = {}
+                p2 = Pools(atype=at)
+                for n, dels in nd.items():
+                    nodes[n] = {did: {"fmt": RFMT[d.get_format()], "pool": d.get_pool_name() or "", "det": _det_name(tn, d.get_details(), variant)}
+                                for did, d in dels.delegations.items()}
+                    # through the text form, as it is stored on a model element
+                    p2.incorporate_delegation(node_id=n, deleg=Delegations.from_json(json_str=dels.to_json(), atype=at))
+                p2.validate_pools()
+                back = {pid: {"del": p.get_delegation_id(), "on": p.get_defined_on(), "for": sorted(p.get_defined_for()),
+                              "det": _det_name(tn, p.get_pool_details(), variant)} for pid, p in p2.pool_by_id.items()}
+                res = {"k": "pools", "nodes": nodes, "back": back}
+        except Exception as e:  # noqa
+            out, res = type(e).__name__, {"k": "none"}
+        steps.append({"op": o, "out": out, "res": res})
+    return {"variant": variant, "steps": steps}
